@@ -38,6 +38,7 @@ class Harness:
   keep_events = False
   tick = None
   max_clock = 3.0e4
+  pause_focus = None
 
   def setup(self):
     raise NotImplementedError
@@ -58,7 +59,8 @@ class Harness:
     return sched.execute(body, prefix, mode=self.mode, max_steps=self.max_steps,
                          keep_events=keep_events or self.keep_events,
                          snapshot=snap, tick=self.tick,
-                         max_clock=self.max_clock, cache=cache)
+                         max_clock=self.max_clock, cache=cache,
+                         pause_focus=self.pause_focus)
 
 
 class Explorer:
